@@ -177,7 +177,12 @@ TABLE = {
              "stats.",
         note="rides on the C01/C02/C03 models; the reset dictionary, the "
              "four increments and the merge operator are read off the "
-             "source (Gen/XStats.v, Gen/Exprs.v).",
+             "source (Gen/XStats.v, Gen/Exprs.v).  The same check builds "
+             "Props/E2E.v, the end-to-end composition of a single-file "
+             "run (E2E_single_file_run_exact, E2E_sequence_search, "
+             "E2E_sequence_search_constrained for sequence definitions "
+             "with constraints of their own, E2E_window_exact_on_lines) "
+             "and runs its correspondence cases (harness/e2e.py).",
         tech="Coq proof over run model + differential correspondence",
         ref="4/C17"),
     'C18': dict(
